@@ -22,6 +22,7 @@ class FeatureIDEReader(TextToModel):
     TAG_FEATURE = "feature"
     TAG_CONSTRAINTS = "constraints"
     TAG_GRAPHICS = "graphics"
+    TAG_DESCRIPTION = "description"
 
     # Feature tags
     TAG_AND = "and"
@@ -79,7 +80,7 @@ class FeatureIDEReader(TextToModel):
         feature = None
 
         for child in root_tree:
-            if not child.tag == FeatureIDEReader.TAG_GRAPHICS:
+            if child.tag not in (FeatureIDEReader.TAG_GRAPHICS, FeatureIDEReader.TAG_DESCRIPTION):
                 is_abstract = (
                     FeatureIDEReader.ATTRIB_ABSTRACT in child.attrib
                     and child.attrib[FeatureIDEReader.ATTRIB_ABSTRACT] == "true"
@@ -136,7 +137,8 @@ class FeatureIDEReader(TextToModel):
         constraints = []
         for ctc in ctcs_root:
             index = 0
-            if ctc[index].tag == FeatureIDEReader.TAG_GRAPHICS:
+            while ctc[index].tag in (FeatureIDEReader.TAG_GRAPHICS,
+                                     FeatureIDEReader.TAG_DESCRIPTION):
                 index += 1
             rule = ctc[index]
             ast = self._parse_rule(rule)
